@@ -193,7 +193,7 @@ fn is_atomic(e: &Ex) -> bool {
             true
         },
         Ex::Index(..) | Ex::Slice(..) | Ex::Call(..) | Ex::Update(..) => true,
-        Ex::EvalOf(_) | Ex::EvalText(_) => true,
+        Ex::EvalOf(_) | Ex::EvalText(_) | Ex::Splat(_) => true,
         _ => false,
     }
 }
